@@ -15,6 +15,8 @@ LAYOUTS = {
     # nested shard lists: shards of the root list, then of the child list x;
     # "AB" is a two-key label written with two different key orders
     "nest": ["A", None, "AB", "|", "BA", "A", None],
+    # label values that differ only in type (int 1 vs str "1")
+    "types": ["i1", "s1", "i1", None, "s1", "i1"],
 }
 ACCEPTS = {
     "sync": {"shards", "limit", "filter"},
@@ -32,6 +34,10 @@ def label(g):
         return {"g": "AB", "h": [1, 2]}
     if g == "BA":  # same value, other insertion order of the keys
         return {"h": [1, 2], "g": "AB"}
+    if g == "i1":
+        return {"g": 1}
+    if g == "s1":
+        return {"g": "1"}
     return {"g": g}
 
 
@@ -115,10 +121,13 @@ def case(args) -> dict:
         _, shards_true = build(root, fmt, LAYOUTS[lname])
         ds_ = Dataset(root)
         # sanity: the listing really has the intended groups
-        listed = [(s.custom_metadata.get("g"), s.number_of_examples)
+        def gname(md):
+            g = md.get("g")
+            return {1: "i1", "1": "s1"}.get(g, g) if not isinstance(
+                g, bool) else g
+
+        listed = [(gname(s.custom_metadata), s.number_of_examples)
                   for s in ds_.shard_info_iterator("train")]
-        if lname == "nest":  # unhashable values: limit per group cannot hash
-            pass
         if listed != [(g, len(m)) for g, m in shards_true]:
             out["harness"] = f"layout not realised: {listed}"
             return out
@@ -199,7 +208,7 @@ def run(ctx):
     from vf import rustbuild
     rustbuild.ensure_ext()
     tasks = [("fb", "g6"), ("fb", "g5"), ("npz", "g6"), ("tfrec", "g5"),
-             ("fb", "one"), ("fb", "nest"), ("npz", "nest")]
+             ("fb", "one"), ("fb", "nest"), ("npz", "nest"), ("fb", "types")]
     if ctx.tier == "thorough":
         tasks += [("npz", "g5"), ("tfrec", "g6"), ("npz", "one"),
                   ("tfrec", "one")]
